@@ -341,11 +341,12 @@ func (p *Prepared) prepareOp(op *Op) (*prepOp, bool) {
 // execution
 
 type liveVal struct {
-	slot int           // > 0: the value lives in re-used target slot `slot` (replaced on the next decode into it)
-	ptr  reflect.Value // pointer to the decoded value
-	exp  reflect.Value // expected (independent copy)
-	op   int
-	desc string
+	twin, twinExp reflect.Value // C19: the non-interned twin decoded from the same buffer at the same time, and its snapshot
+	slot          int           // > 0: the value lives in re-used target slot `slot` (replaced on the next decode into it)
+	ptr           reflect.Value // pointer to the decoded value
+	exp           reflect.Value // expected (independent copy)
+	op            int
+	desc          string
 }
 
 type taskState struct {
